@@ -12,18 +12,22 @@ import (
 )
 
 type Obs struct {
-	Kind     string `json:"kind"`          // "value" | "throw" | "crash" | "broken"
-	Res      string `json:"res,omitempty"` // json_encode of the result
-	Hex      string `json:"hex,omitempty"` // bin2hex of the result when it is a string
-	IsStr    bool   `json:"is_str,omitempty"`
-	After    string `json:"after,omitempty"` // json_encode of the receiver afterwards
-	Trace    string `json:"trace,omitempty"`
-	Msg      string `json:"msg,omitempty"`
-	PanicKey string `json:"panic_key,omitempty"`
-	Pre      string `json:"pre,omitempty"` // two-step family: json_encode of the receiver after the first step
+	Kind     string            `json:"kind"`          // "value" | "throw" | "crash" | "broken"
+	Res      string            `json:"res,omitempty"` // json_encode of the result
+	Hex      string            `json:"hex,omitempty"` // bin2hex of the result when it is a string
+	IsStr    bool              `json:"is_str,omitempty"`
+	After    string            `json:"after,omitempty"` // json_encode of the receiver afterwards
+	Trace    string            `json:"trace,omitempty"`
+	Msg      string            `json:"msg,omitempty"`
+	PanicKey string            `json:"panic_key,omitempty"`
+	Pre      string            `json:"pre,omitempty"`   // two-step family: json_encode of the receiver after the first step
+	Extra    map[string]string `json:"extra,omitempty"` // "afterwards" family: v, a (before the write), G<k> (arguments)
 }
 
 func caseSrc(c *Case, at atoms, i int, bare bool) string {
+	if c.Fam == "aft" {
+		return aftSrc(c, at, i, bare)
+	}
 	var sb strings.Builder
 	recv := c.Recv
 	if c.Pre != "" {
@@ -85,6 +89,19 @@ func parseSection(out string, i int) (Obs, bool) {
 		case 'A':
 			seenA = true
 			o.After = p[1:]
+		case 'v', 'a':
+			if o.Extra == nil {
+				o.Extra = map[string]string{}
+			}
+			o.Extra[p[:1]] = p[1:]
+		case 'G':
+			if len(p) < 2 {
+				return Obs{}, false
+			}
+			if o.Extra == nil {
+				o.Extra = map[string]string{}
+			}
+			o.Extra[p[:2]] = p[2:]
 		case 'P':
 			o.Pre = p[1:]
 		case 'C':
@@ -210,6 +227,9 @@ func traceOK(e *Exp, tr string) bool {
 
 // compare returns the violated clause ("" = conforms).
 func compare(c *Case, e *Exp, o *Obs) string {
+	if c.Fam == "aft" {
+		return compareAft(c, e, o)
+	}
 	switch o.Kind {
 	case "crash":
 		return "crash"
@@ -282,6 +302,9 @@ func expect(c *Case, at atoms) Exp {
 	if c.Fam == "str" {
 		return expectStr(c, at)
 	}
+	if c.Fam == "aft" {
+		return expectAft(c, at)
+	}
 	// "arr2": c.Recv is the model's receiver after the first step
 	return expectArr(c, at)
 }
@@ -291,10 +314,18 @@ func describeExp(e *Exp) string {
 		return "any non-crashing outcome (" + e.Note + ")"
 	}
 	var p []string
-	for _, a := range e.Alts {
+	for i, a := range e.Alts {
 		s := "after=" + canon(a.After)
 		if !e.NoResult {
 			s = "result=" + canon(a.Res) + " " + s
+		}
+		for k := 0; k < 8; k++ {
+			if i >= len(e.AltArgs) {
+				break
+			}
+			if av, ok := e.AltArgs[i][k]; ok {
+				s += fmt.Sprintf(" $a%d=%s", k, canon(av))
+			}
 		}
 		p = append(p, s)
 	}
@@ -320,6 +351,11 @@ func describeObs(o *Obs) string {
 		s := "result=" + o.Res + " after=" + o.After
 		if o.Pre != "" {
 			s = "(after first step " + o.Pre + ") " + s
+		}
+		for k := 0; k < 8; k++ {
+			if g, ok := o.Extra[fmt.Sprintf("G%d", k)]; ok {
+				s += fmt.Sprintf(" $a%d=%s", k, g)
+			}
 		}
 		if o.Trace != "" {
 			s += " callback calls=" + strings.TrimSpace(o.Trace)
